@@ -764,7 +764,7 @@ class CSSSerializer:
         """
         if rule.wellformed and self.prefs.keepUnknownAtRules:
             out = Out(self)
-            out.append(rule.atkeyword)
+            out.append(rule.atkeyword[:1] + helper.ident(rule.atkeyword[1:]))
 
             stacks = []
             for item in rule.seq:
